@@ -128,6 +128,16 @@ func randHeaders(rng *rand.Rand) []aspec.Header {
 		}
 		out = append(out, aspec.Header{Name: n, Req: rng.Intn(2) == 0, Schema: s})
 	}
+	// now and then a header with a well-known name, typed as the spec author declares it (they are ordinary headers
+	// to the generator: no name-specific treatment)
+	if rng.Intn(3) == 0 {
+		std := []aspec.Header{{Name: "Last-Modified", Schema: aspec.Schema{K: "datetime"}}, {Name: "Expires", Schema: aspec.Schema{K: "datetime"}}, {Name: "date", Schema: aspec.Schema{K: "datetime"}},
+			{Name: "ETag", Schema: aspec.Schema{K: "string"}}, {Name: "Location", Schema: aspec.Schema{K: "string"}}, {Name: "Retry-After", Schema: aspec.Schema{K: "int32"}},
+			{Name: "Content-Language", Schema: aspec.Schema{K: "string"}}, {Name: "Age", Schema: aspec.Schema{K: "int64"}}, {Name: "Link", Schema: aspec.Schema{K: "array", Items: &aspec.Schema{K: "string"}}}}
+		h := std[rng.Intn(len(std))]
+		h.Req = rng.Intn(2) == 0
+		out = append(out, h)
+	}
 	return out
 }
 
@@ -207,7 +217,9 @@ func randWireOp(a *aspec.ASpec, k int, rng *rand.Rand) wireOp {
 			op.Body.Req = true
 		}
 	}
-	statuses := []string{"200", "201", "404", "default"}
+	// (the third documented status rotates through the registry: success, redirect-free 4xx / 5xx, codes whose net/http
+	// constant names are abbreviated)
+	statuses := []string{"200", "201", []string{"404", "202", "203", "400", "407", "409", "418", "422", "500", "503"}[k%10], "default"}
 	rng.Shuffle(len(statuses), func(i, j int) { statuses[i], statuses[j] = statuses[j], statuses[i] })
 	op.Responses = nil
 	for _, st := range statuses[:1+rng.Intn(4)] {
@@ -462,6 +474,12 @@ func checkWire(c *core.Check, which string) {
 				cid := fmt.Sprintf("c%d", caseN)
 				g.Wire = append(g.Wire, driver.WireCase{ID: cid, Op: opID, Seed: rng.Int63(), RespSeed: rng.Int63n(1 << 40)})
 				metaOf[cid] = opMeta{w: w, pkg: id, base: bsegs}
+				if s == 1 {
+					// a call whose response cannot be written (the client went away) in between: it is not judged itself,
+					// what the calls after it put on the wire is
+					caseN++
+					g.Wire = append(g.Wire, driver.WireCase{ID: fmt.Sprintf("fw%d", caseN), Op: opID, Seed: rng.Int63(), RespSeed: rng.Int63n(1 << 40), FailWrite: true})
+				}
 			}
 			for _, st := range []int{200, 201, 202, 302, 404, 418, 500} {
 				doc := false
@@ -608,6 +626,9 @@ func checkWire(c *core.Check, which string) {
 		var e map[string]any
 		json.Unmarshal(raw, &e)
 		cid, _ := e["case"].(string)
+		if strings.HasPrefix(cid, "fw") {
+			continue
+		}
 		if cid != "" && len(info[cid]) < 12 {
 			info[cid] = append(info[cid], trunc(string(raw), 700))
 		}
